@@ -738,6 +738,34 @@ def check_nbr(ctx: Ctx, case, jobs: Jobs | None = None) -> bool:
                     ctx.disagree("nbr", case, f"point {i}: model count {mc[i]} outside the exact count [{lo[i]}, {hi[i]}]")
                     return
         jobs.add(case["N"] ** 2, line, cb)
+        if case["N"] <= 40:
+            rm = case["data_seed"] % 2
+            line2 = (f"c18.api.nbr {U.ord_tok(o)} {'none' if pdim is None else pdim} {X64.shape[1]} {case['N']} {n} "
+                     f"{wire_radius(radius)} {rm} " + cloud_tokens(X64))
+            out64 = out.double()
+
+            def cb2(st, toks, m=m, lo=lo, hi=hi, rm=rm, out64=out64):
+                if st != "ok":
+                    ctx.disagree("nbr", case, f"entry-point model replied {toks} for a call the implementation accepts")
+                    return
+                if any(lo[i] != hi[i] for i in range(case["N"])):
+                    return
+                Mm = int(toks[0])
+                rest = toks[1:]
+                if rm:
+                    if rest[0] != "mask" or [bool(int(t)) for t in rest[1:1 + case["N"]]] != m:
+                        ctx.disagree("nbr", case, "entry-point model: returned mask differs from the implementation's")
+                        return
+                    rest = rest[1 + case["N"]:]
+                elif rest[0] != "nomask":
+                    ctx.disagree("nbr", case, "entry-point model returns a mask although return_mask=False")
+                    return
+                else:
+                    rest = rest[1:]
+                mv = torch.tensor(nums(rest), dtype=torch.float64).reshape(Mm, X64.shape[1]) if Mm else torch.zeros(0, X64.shape[1], dtype=torch.float64)
+                if Mm != out64.shape[0] or not torch.equal(mv, out64):
+                    ctx.disagree("nbr", case, f"entry-point model (pdim={pdim}, return_mask={bool(rm)}): rows differ from the implementation's")
+            jobs.add(case["N"] ** 2, line2, cb2)
     # equivariance on the real code
     if case.get("perm_seed") is not None and case.get("keep") is None:
         r = random.Random(case["perm_seed"])
@@ -871,6 +899,21 @@ def check_voxel(ctx: Ctx, case, jobs: Jobs | None = None) -> bool:
                     j = int(far(got, mv, tolm).any(1).nonzero()[0])
                     ctx.disagree("voxel", case, f"row {j}: implementation {got[j].tolist()} model {mv[j].tolist()}")
             jobs.add(N * M, line, cb)
+            if N <= 40:
+                line2 = f"c18.api.voxel 0 {D} {len(vox)} {N} 0 " \
+                        + " ".join(to_wire(float(torch.tensor(v, dtype=torch.float32))) for v in vox) + " " + cloud_tokens(X64)
+
+                def cb2(st, toks, got=got, tolm=tolm):
+                    if st != "ok":
+                        ctx.disagree("voxel", case, f"entry-point model replied {toks} for a call the implementation accepts")
+                        return
+                    if int(toks[0]) != M:
+                        ctx.disagree("voxel", case, f"entry-point model has {toks[0]} voxels, implementation {M}")
+                        return
+                    mv = torch.tensor(nums(toks[1:]), dtype=torch.float64).reshape(M, D)
+                    if bool(far(got, mv, tolm).any()) and "voxel.order-differs" not in ctx.hist:
+                        ctx.disagree("voxel", case, "entry-point model: centroids differ from the implementation's")
+                jobs.add(N * M, line2, cb2)
         if case.get("perm_seed") is not None and case.get("keep") is None:
             r = random.Random(case["perm_seed"])
             sg = list(range(N))
@@ -934,14 +977,17 @@ def check_voxel(ctx: Ctx, case, jobs: Jobs | None = None) -> bool:
         ctx.count("voxel.order-differs")
     draws = [v for (nm, a, vs) in log if nm == "randint" for v in vs]
     if jobs is not None and len(draws) == M and all(0 <= dv < len(groups[kk]) for dv, kk in zip(draws, ukeys)):
-        line = f"c18.voxrand {D} {len(vox)} {N} {M} " + " ".join(map(str, draws)) + " " \
+        line = f"c18.api.voxel 1 {D} {len(vox)} {N} {M} " + " ".join(map(str, draws)) + " " \
                + " ".join(to_wire(float(torch.tensor(v, dtype=torch.float32))) for v in vox) + " " + cloud_tokens(X64)
 
         def cb(st, toks, out=out.double()):
             if st != "ok":
                 ctx.disagree("voxel", case, f"model replied {toks}")
                 return
-            mv = torch.tensor(nums(toks), dtype=torch.float64).reshape(M, D)
+            if int(toks[0]) != M:
+                ctx.disagree("voxel", case, f"entry-point model has {toks[0]} voxels, implementation {M}")
+                return
+            mv = torch.tensor(nums(toks[1:]), dtype=torch.float64).reshape(M, D)
             if not torch.equal(mv, out):
                 # torch.argsort is not guaranteed stable: another member of the same voxel is still fine
                 ctx.count("voxel.rand-other-member")
@@ -973,7 +1019,7 @@ def check_knnf(ctx: Ctx, case, jobs: Jobs | None = None) -> bool:
         if N < k + 1:
             ctx.count("knnf.k-range-error")
             if jobs is not None:
-                line = f"c18.knnf {U.ord_tok(o)} {pd} {D} {N} {k} {0 if radius is None else 1} {wire_radius(radius or 0.0)} " \
+                line = f"c18.api.knnf {U.ord_tok(o)} {'none' if pdim is None else pdim} {D} {N} {k} {0 if radius is None else 1} {wire_radius(radius or 0.0)} " \
                        + cloud_tokens(items[0])
                 jobs.add(1, line, lambda st, toks: None if st == "err" else
                          ctx.disagree("knnf", case, "implementation raises for N < k+1, the model returns a result"))
@@ -1033,7 +1079,7 @@ def check_knnf(ctx: Ctx, case, jobs: Jobs | None = None) -> bool:
                                f"(radius={radius!r}, ord={o}, pdim={pd})")
                 return False
         if jobs is not None and b < case.get("model_items", 1):
-            line = f"c18.knnf {U.ord_tok(o)} {pd} {D} {N} {k} {0 if radius is None else 1} {wire_radius(radius or 0.0)} " \
+            line = f"c18.api.knnf {U.ord_tok(o)} {'none' if pdim is None else pdim} {D} {N} {k} {0 if radius is None else 1} {wire_radius(radius or 0.0)} " \
                    + cloud_tokens(X64)
             unamb = [row_unambiguous(rows[i], d[i], k + 1, False, tol, exact) for i in keep]
 
@@ -1345,8 +1391,8 @@ def check_camera(ctx: Ctx, case, jobs: Jobs | None = None) -> bool:
         for (b, i) in sel[: case.get("model_points", 4)]:
             if not bool(okmask[b, i]):
                 continue
-            xs = [tiny] + KB[b].reshape(-1).tolist() + (extB[b].tolist() if ext is not None else []) + ptsB[b, i].tolist()
-            line = f"c18.p2p {1 if ext is not None else 0} " + common.wire_list(xs)
+            xs = KB[b].reshape(-1).tolist() + (extB[b].tolist() if ext is not None else []) + ptsB[b, i].tolist()
+            line = f"c18.api.p2p {d} {1 if ext is not None else 0} " + common.wire_list(xs)
 
             def cb(st, toks, b=b, i=i):
                 if st != "ok":
@@ -1403,9 +1449,9 @@ def check_camera(ctx: Ctx, case, jobs: Jobs | None = None) -> bool:
             pixB = pix.double().expand(tuple(bshape) + (n, 2)).reshape(B, n, 2)
             e1B = e1.double().reshape(B, n, -1)
             if bool(okmask[b, i]):
-                xs = [tiny] + KB[b].reshape(-1).tolist() + (extB[b].tolist() if ext is not None else []) \
+                xs = KB[b].reshape(-1).tolist() + (extB[b].tolist() if ext is not None else []) \
                     + ptsB[b, i].tolist() + pixB[b, i].tolist()
-                line = f"c18.reproj {red} {1 if ext is not None else 0} " + common.wire_list(xs)
+                line = f"c18.api.reproj {d} {red} {1 if ext is not None else 0} " + common.wire_list(xs)
 
                 def cb(st, toks, b=b, i=i, red=red, e1B=e1B, pixB=pixB):
                     if st != "ok":
@@ -1556,7 +1602,7 @@ def check_homo(ctx: Ctx, case, jobs: Jobs | None = None) -> bool:
         for b in range(min(flat_h.shape[0], 3)):
             if not bool(fin[b].all()):
                 continue
-            line = "c18.h2c " + common.wire_list([tiny] + flat_h[b].tolist())
+            line = f"c18.api.h2c {d} " + common.wire_list(flat_h[b].tolist())
 
             def cb(st, toks, b=b):
                 mv = nums(toks) if st == "ok" else None
@@ -1951,6 +1997,18 @@ def check_bad(ctx: Ctx, case, jobs: Jobs | None = None) -> bool:
     if X.shape != before.shape or not torch.equal(X, before):
         ctx.fail(case, f"atomic-{what}: a call that fails ({what}) left the caller's tensor modified")
         return False
+    if jobs is not None:
+        X64 = before.double()
+        toks_ = cloud_tokens(X64)
+        line = {"knnf_k": f"c18.api.knnf 2 none {D} {N} {N + case.get('more', 0)} {0 if case.get('radius') is None else 1} "
+                          f"{to_wire(case.get('radius') or 0.0)} " + toks_,
+                "nbr_pdim": f"c18.api.nbr 2 {D + 1} {D} {N} 1 1:0 0 " + toks_,
+                "voxel_zero": f"c18.api.voxel 0 {D} {case['pdim']} {N} 0 " + " ".join(["1:0"] * (case["pdim"] - 1) + ["0:0"]) + " " + toks_,
+                "voxel_long": f"c18.api.voxel 0 {D} {D + 1} {N} 0 " + " ".join(["1:0"] * (D + 1)) + " " + toks_,
+                "randf_num": f"c18.randf {D} {N} {N + 1} " + " ".join(map(str, range(N))) + " " + toks_}.get(what)
+        if line is not None:
+            jobs.add(N, line, lambda st, toks: None if st == "err" else
+                     ctx.disagree("bad", case, f"the entry-point model accepts the call {what} that the documented checks reject"))
     return True
 
 
